@@ -135,6 +135,40 @@ def _share_a_statement(s, t) -> bool:
     return False
 
 
+def _beneath_fps(s) -> set:
+    out = set()
+    for _field, sub in block_fields(s):
+        for x in sub.stmts:
+            out.add(fingerprint(x))
+            out |= _beneath_fps(x)
+    return out
+
+
+def _weighted_pairs(n: int, m: int, weight) -> list[tuple[int, int]]:
+    """Order-preserving pairing of 0..n-1 with 0..m-1 that maximises the total weight
+    (weight(i, j) <= 0: the two may not be paired)."""
+    w = [[weight(i, j) for j in range(m)] for i in range(n)]
+    dp = [[0] * (m + 1) for _ in range(n + 1)]
+    for i in range(n - 1, -1, -1):
+        for j in range(m - 1, -1, -1):
+            best = max(dp[i + 1][j], dp[i][j + 1])
+            if w[i][j] > 0:
+                best = max(best, w[i][j] + dp[i + 1][j + 1])
+            dp[i][j] = best
+    out = []
+    i = j = 0
+    while i < n and j < m:
+        if w[i][j] > 0 and dp[i][j] == w[i][j] + dp[i + 1][j + 1]:
+            out.append((i, j))
+            i += 1
+            j += 1
+        elif dp[i + 1][j] >= dp[i][j + 1]:
+            i += 1
+        else:
+            j += 1
+    return out
+
+
 def _lcs(a: list, b: list) -> list[tuple[int, int]]:
     n, m = len(a), len(b)
     dp = [[0] * (m + 1) for _ in range(n + 1)]
@@ -210,7 +244,12 @@ class Alignment:
                 continue
             ho = [fingerprint(olds[i], header_only=True) for i in oc]
             hn = [fingerprint(news[j], header_only=True) for j in nc]
-            for a, b in _lcs(ho, hn):
+            # equal headers may be paired; among the order-preserving pairings the one whose partners
+            # have the most statements in common beneath them (two `with fp.REAL:` blocks side by side,
+            # one of them new, are told apart by what they hold)
+            bo = [_beneath_fps(olds[i]) for i in oc]
+            bn = [_beneath_fps(news[j]) for j in nc]
+            for a, b in _weighted_pairs(len(oc), len(nc), lambda x, y: (1 + 1000 * len(bo[x] & bn[y])) if ho[x] == hn[y] else 0):
                 inside[oc[a]] = nc[b]
         all_anchor = dict(anchors)
         all_anchor.update(inside)
